@@ -72,9 +72,9 @@ def gen_molecule(rnd, n, shape, cfg):
         rn = rnd.choice(['ALA', 'GLY', 'LYS', 'W', 'ION', 'HSD'])
         if rnd.random() < 0.12:
             # legal but unusual characters in names (mol2 / nucleic-acid style)
-            nm = rnd.choice(['C.3', 'N.ar', "O5'", 'C1*', 'H+', 'O.2', "H5''"])
+            nm = rnd.choice(['C.3', 'N.ar', "O5'", 'C1*', 'H+', 'O.2', "H5''", 'C#', 'N#1', 'C;1'])
         if rnd.random() < 0.06:
-            rn = rnd.choice(['A.B', 'D.A', 'U+'])
+            rn = rnd.choice(['A.B', 'D.A', 'U+', 'L#1', 'A;B'])
         if cfg.get('wild') and rnd.random() < 0.1:
             nm = rnd.choice(['ABCDE', 'ABCDEF', 'X'])
         if cfg.get('wild') and rnd.random() < 0.1:
